@@ -99,6 +99,35 @@ class Ctx:
             self._traces[key] = Evaluator(self.prog, ci, assume=assume, nonnull=nonnull).run(fi)
         return self._traces[key]
 
+    def trace_member(self, clsname, method):
+        """trace(), for sweeps over every method of a class: a private helper whose body is only meaningful with the arguments
+        its callers give it (reflection over a keyword table, a starred argument) cannot be analysed as an entry point; it is
+        analysed inlined in every method of the class that calls it, so the sweep skips it as an entry (None) and says so."""
+        import ast
+        try:
+            return self.trace(clsname, method)
+        except AnalysisError as e:
+            msg = str(e)
+            if not (method.startswith("_") and not method.startswith("__")) or not (
+                    "dynamic attribute access" in msg or "starred argument" in msg):
+                raise
+            ci = self.prog.cls(clsname)
+            called = False
+            for c in ci.mro:
+                for m2, fi2 in c.methods.items():
+                    if m2 == method:
+                        continue
+                    for n in ast.walk(fi2.node):
+                        if isinstance(n, ast.Call) and isinstance(n.func, ast.Attribute) and n.func.attr == method and \
+                                isinstance(n.func.value, ast.Name) and n.func.value.id == "self":
+                            called = True
+            if not called:
+                raise
+            note = "%s.%s not analysed as an entry point (%s); it is analysed in the context of its callers" % (clsname, method, msg[:80])
+            if note not in self.notes:
+                self.notes.append(note)
+            return None
+
     def trace_static(self, fi, assume=None, nonnull=()):
         key = ("<static>", fi.qualname, repr(sorted((assume or {}).items())), tuple(sorted(nonnull)))
         if key not in self._traces:
@@ -187,15 +216,17 @@ class Ctx:
                     fi_ = None
                 if fi_ is not None and fi_.qualname in opaque:
                     opaque[f.site] = opaque[fi_.qualname]
+        def _is_known(f):
+            return any(k.get("property") == f.pid and k.get("rule") == f.rule and k.get("site") == f.site and k.get("construct") == f.construct for k in known)
         for f in self.findings:
-            if f.site in opaque and f.site not in self.anchor_failed_sites and (f.rule, f.site, f.construct) not in self._firm:
+            if f.site in opaque and f.site not in self.anchor_failed_sites and (f.rule, f.site, f.construct) not in self._firm and not _is_known(f):
                 self.anchor_failed_sites.add(f.site)
                 self.anchor_errors.append("%s uses %s, which the evaluator does not model" % (f.site, opaque[f.site]))
         # a formula obligation whose computed value goes through a callable the evaluator could not resolve (shown as <dynamic>(...))
         # was not evaluated on the formula: the site counts as unrecognised
         for f in self.findings:
             if f.rule.startswith("FRM") and "<dynamic>(" in (f.message or "") and "distance_function" not in (f.message or "") and "margin_calculation_function" not in (f.message or ""):
-                if f.site not in self.anchor_failed_sites:
+                if f.site not in self.anchor_failed_sites and not _is_known(f):
                     self.anchor_failed_sites.add(f.site)
                     self.anchor_errors.append("%s: %s computed through an unresolved callable" % (f.site, f.construct[:80]))
         if not self.anchor_failed_sites:
